@@ -66,7 +66,7 @@ Proof.
   intros Hj Hx. unfold find_len. apply find_none. intros e He.
   unfold entries_of_len in He. apply filter_In in He as [Hin Hl]. cbn beta in Hl. apply Nat.eqb_eq in Hl.
   destruct (prefix (fst e) (s ++ r)) eqn:Hp; auto.
-  assert (Hlt : List.length s < List.length (fst e)) by lia.
+  assert (Hlt : List.length s < List.length (fst e)) by (unfold text in *; lia).
   destruct (prefix_longer (fst e) s r Hlt Hp) as (c & r' & -> & Hc).
   unfold extends in Hx. assert (existsb (fun e0 => prefix (s ++ [c]) (fst e0)) table = true).
   { apply existsb_exists. exists e. auto. }
@@ -97,10 +97,10 @@ Proof.
   { intros j ->. rewrite find_len_eq. exact Hs. }
   assert (G : forall j, List.length s < j -> find_len j (s ++ r) = None) by (intros; apply find_len_gt; auto).
   destruct (List.length s) as [|[|[|[|[|k]]]]] eqn:Ek; try lia.
-  - rewrite (G 4), (G 3), (G 2) by lia. rewrite (E 1) by reflexivity. rewrite <- Ek, skipn_app_len. reflexivity.
-  - rewrite (G 4), (G 3) by lia. rewrite (E 2) by reflexivity. rewrite <- Ek, skipn_app_len. reflexivity.
-  - rewrite (G 4) by lia. rewrite (E 3) by reflexivity. rewrite <- Ek, skipn_app_len. reflexivity.
-  - rewrite (E 4) by reflexivity. rewrite <- Ek, skipn_app_len. reflexivity.
+  - rewrite (G 4), (G 3), (G 2) by lia. rewrite (E 1) by reflexivity. cbv beta iota. rewrite skipn_app_len. reflexivity.
+  - rewrite (G 4), (G 3) by lia. rewrite (E 2) by reflexivity. cbv beta iota. rewrite skipn_app_len. reflexivity.
+  - rewrite (G 4) by lia. rewrite (E 3) by reflexivity. cbv beta iota. rewrite skipn_app_len. reflexivity.
+  - rewrite (E 4) by reflexivity. cbv beta iota. rewrite skipn_app_len. reflexivity.
 Qed.
 
 (* the first character of a punctuator is not a word / number / string start *)
@@ -118,16 +118,17 @@ Qed.
 Lemma lex_string_escape s r : lex_string (escape s ++ quote :: r) = Some (s, r).
 Proof.
   induction s as [|c s IH]; cbn [escape app lex_string].
-  - rewrite Ascii.eqb_refl. reflexivity.
+  - reflexivity.
   - destruct (Ascii.eqb c quote) eqn:E1.
-    { apply Ascii.eqb_eq in E1; subst. cbn [app lex_string]. cbn. rewrite IH. reflexivity. }
+    { apply Ascii.eqb_eq in E1; subst. rewrite <- app_assoc. cbn [app lex_string]. cbn. rewrite IH. reflexivity. }
     destruct (Ascii.eqb c bslash) eqn:E2.
-    { apply Ascii.eqb_eq in E2; subst. cbn [app lex_string]. cbn. rewrite IH. reflexivity. }
+    { apply Ascii.eqb_eq in E2; subst. rewrite <- app_assoc. cbn [app lex_string]. cbn. rewrite IH. reflexivity. }
     destruct (Ascii.eqb c lf) eqn:E3.
-    { apply Ascii.eqb_eq in E3; subst. cbn [app lex_string]. cbn. rewrite IH. reflexivity. }
+    { apply Ascii.eqb_eq in E3; subst. rewrite <- app_assoc. cbn [app lex_string]. cbn. rewrite IH. reflexivity. }
     destruct (Ascii.eqb c cr) eqn:E4.
-    { apply Ascii.eqb_eq in E4; subst. cbn [app lex_string]. cbn. rewrite IH. reflexivity. }
-    cbn [app lex_string]. rewrite E1, E2, E3, E4. cbn [orb]. rewrite IH. reflexivity.
+    { apply Ascii.eqb_eq in E4; subst. rewrite <- app_assoc. cbn [app lex_string]. cbn. rewrite IH. reflexivity. }
+    rewrite <- app_assoc. change ([c] ++ escape s ++ quote :: r) with (c :: escape s ++ quote :: r).
+    cbn [lex_string]. rewrite E1, E2, E3, E4. cbn [orb]. rewrite IH. reflexivity.
 Qed.
 
 (* ------------------------------------------------------------------ numbers *)
@@ -160,7 +161,7 @@ Lemma lex_word w r t : (exists c tl, T w = c :: tl /\ is_id_start c = true) -> f
   lex_one (T w ++ r) = Some (t, r).
 Proof.
   intros (c & tl & E & Hc) Hall Hcl Hr. unfold lex_one.
-  rewrite E. cbn [app]. rewrite Hc. rewrite app_comm_cons, <- E.
+  rewrite E. change ((c :: tl) ++ r) with (c :: (tl ++ r)). cbv beta iota. rewrite Hc. rewrite app_comm_cons, <- E.
   rewrite (span_all is_id_part (T w) r Hall Hr). unfold T. rewrite string_of_list_ascii_of_string. rewrite Hcl. reflexivity.
 Qed.
 
@@ -172,7 +173,7 @@ Proof.
     assert (Hx : match r with c0 :: _ => extends (T (punct_text p)) c0 = false | [] => True end).
     { destruct r as [|c0 r']; auto. cbn [follow_ok glues] in Hf. apply orb_false_iff in Hf as [Hf _]. exact Hf. }
     pose proof (lex_punct_ok p r Hp Hx) as Hl.
-    unfold lex_one. rewrite E in *. cbn [app] in *. rewrite H1, H2, H3.
+    unfold lex_one. rewrite E in *. change ((c :: tl) ++ r) with (c :: (tl ++ r)) in *. cbv beta iota. rewrite H1, H2, H3.
     assert (Hd : Ascii.eqb c "."%char && match tl ++ r with d :: _ => is_digit d | [] => false end = false).
     { destruct (Ascii.eqb c "."%char) eqn:Ec; auto. cbn [andb].
       destruct (Hdot eq_refl) as [->|(c2 & tl2 & -> & Hc2)].
@@ -194,16 +195,17 @@ Proof.
     { unfold is_digit in Hc. unfold is_id_start. apply andb_true_iff in Hc as [A B]. apply Nat.leb_le in A. apply Nat.leb_le in B.
       repeat (apply orb_false_iff; split); try (apply andb_false_iff); try (apply Nat.eqb_neq; lia);
         [left; apply Nat.leb_gt; lia|left; apply Nat.leb_gt; lia]. }
-    unfold lex_one. cbn [app]. rewrite Hs, Hc. rewrite app_comm_cons, <- E.
+    unfold lex_one. change ((c :: tl) ++ r) with (c :: (tl ++ r)). cbv beta iota. rewrite Hs, Hc. rewrite app_comm_cons, <- E.
     assert (Hr : match r with c0 :: _ => is_digit c0 = false | [] => True end).
     { destruct r as [|c0 r']; auto. cbn [follow_ok glues] in Hf. apply orb_false_iff in Hf as [Hf _].
       unfold is_id_part in Hf. apply orb_false_iff in Hf as [_ Hf]. exact Hf. }
     rewrite (span_all is_digit (num_text n) r (proj1 (num_text_digits n)) Hr).
-    rewrite num_roundtrip. cbn [option_map]. rewrite Unsigned.of_to.
+    rewrite num_roundtrip. cbn [option_map]. rewrite DecimalN.Unsigned.of_to.
     destruct r as [|c0 r']; auto. cbn [follow_ok glues] in Hf. rewrite Hf. reflexivity.
   - (* string *)
-    unfold lex_one. cbn [app]. change (is_id_start quote) with false. change (is_digit quote) with false.
-    cbv iota. rewrite Ascii.eqb_refl. rewrite <- app_assoc. cbn [app]. rewrite lex_string_escape.
+    unfold lex_one. change ((quote :: escape (T s) ++ [quote]) ++ r) with (quote :: ((escape (T s) ++ [quote]) ++ r)).
+    cbv beta iota. change (is_id_start quote) with false. change (is_digit quote) with false.
+    cbv iota. rewrite Ascii.eqb_refl. rewrite <- app_assoc. change ([quote] ++ r) with (quote :: r). rewrite lex_string_escape.
     unfold T. rewrite string_of_list_ascii_of_string. reflexivity.
   - (* booleans *)
     destruct b; apply lex_word; auto; try reflexivity; try (eexists; eexists; split; reflexivity).
@@ -215,16 +217,16 @@ Qed.
 
 Lemma extends_ws p c : real_punct p = true -> is_ws c = true -> extends (T (punct_text p)) c = false.
 Proof.
-  intros Hp Hc. destruct (is_ws_cases c Hc) as [->|[->|[->|->]]];
+  intros Hp Hc. destruct (is_ws_cases c Hc) as [Hq|[Hq|[Hq|Hq]]]; subst c;
     destruct p; try destruct o; try discriminate Hp; vm_compute; reflexivity.
 Qed.
 
 Lemma glues_ws t c : printable t -> is_ws c = true -> glues t c = false.
 Proof.
   intros Hp Hc.
-  assert (Hid : is_id_part c = false) by (destruct (is_ws_cases c Hc) as [->|[->|[->|->]]]; reflexivity).
-  assert (Hdg : is_digit c = false) by (destruct (is_ws_cases c Hc) as [->|[->|[->|->]]]; reflexivity).
-  assert (Hdot : Ascii.eqb c "."%char = false) by (destruct (is_ws_cases c Hc) as [->|[->|[->|->]]]; reflexivity).
+  assert (Hid : is_id_part c = false) by (destruct (is_ws_cases c Hc) as [Hq|[Hq|[Hq|Hq]]]; subst c; reflexivity).
+  assert (Hdg : is_digit c = false) by (destruct (is_ws_cases c Hc) as [Hq|[Hq|[Hq|Hq]]]; subst c; reflexivity).
+  assert (Hdot : Ascii.eqb c "."%char = false) by (destruct (is_ws_cases c Hc) as [Hq|[Hq|[Hq|Hq]]]; subst c; reflexivity).
   destruct t; cbn [glues printable] in *; auto.
   - rewrite (extends_ws p c Hp Hc). destruct p; auto.
   - rewrite Hid, Hdot. reflexivity.
@@ -285,8 +287,8 @@ Proof.
       split; auto. apply orb_true_iff in Hs as [Hs|Hs].
       - left. apply negb_true_iff in Hs. exact Hs.
       - right. destruct w'; [discriminate|congruence]. }
-    rewrite (lex_one_ok t _ Hpt Hfo).
-    destruct (tok_text t ++ render_ws r trail) eqn:Ex; [rewrite E in Ex; discriminate|].
+    rewrite E. change ((c :: tl) ++ render_ws r trail) with (c :: (tl ++ render_ws r trail)). cbv beta iota.
+    rewrite app_comm_cons, <- E. rewrite (lex_one_ok t _ Hpt Hfo).
     rewrite (IH (Some t) trail fuel Hpr Hgr Ht ltac:(cbn in Hf; lia)). reflexivity.
 Qed.
 
